@@ -37,7 +37,11 @@ func compileNeo(u *Unit) (c *Compiled) {
 			c.Err = fmt.Errorf("compiler panic: %v", r)
 		}
 	}()
-	nf, di, err := compiler.CompileWithOptions(u.ID+".go", strings.NewReader(u.Src), nil)
+	src := u.Src
+	if u.VMSrc != "" {
+		src = u.VMSrc
+	}
+	nf, di, err := compiler.CompileWithOptions(u.ID+".go", strings.NewReader(src), nil)
 	if err != nil {
 		c.Err = err
 		return
@@ -322,4 +326,13 @@ func runVM(c *Compiled, sig *Sig, args []any) (o VMOut) {
 	}
 	o.Res = strings.Join(parts, ";")
 	return
+}
+
+func compileDir(dir string) (*nef.File, *compiler.DebugInfo, error) {
+	return compiler.CompileWithOptions(dir, nil, nil)
+}
+
+// manifestOf: corpus contracts declare events / permissions in their .yml; only the ABI methods matter here.
+func manifestOf(di *compiler.DebugInfo, name string) (*manifest.Manifest, error) {
+	return compiler.CreateManifest(di, &compiler.Options{Name: name, NoEventsCheck: true, NoStandardCheck: true, NoPermissionsCheck: true})
 }
